@@ -13,16 +13,16 @@ oracle: for every pipeline: ALL variants {SQLite, PostgreSQL dialect} x {merge o
         variant must return the table returned by the variant closest to the library's defaults that runs (WITH form, merges
         on): same columns in the same order, same rows; same row order when the pipeline ends in a total order_rows.  A variant
         that raises, in generation or in execution, while another runs is a failure too.
-findings (unchanged tree): C04-cte-reuse-of-merged-extend, C04-cte-key-none (repairs proposed in pending_fixes/C04-*.patch),
-        C04-order-by-inside-union-operand (known_findings.d/C04.json); a fourth defect found by this check (KeyError in the merge
-        test after select_columns / drop_columns) was repaired in /repo by 05d5f06."""
+findings: C04-order-by-inside-union-operand is listed (known_findings.d/C04.json).  Three defects found by this check are repaired
+        in /repo: CTE reuse of a merged extend (efc7e6f), the cache key 'None' (0184359), KeyError in the merge test (05d5f06);
+        their witnesses stay in corpus/C04 and run first; the model's flags (read off the code at run time) follow the code."""
 import glob, json, os, re, time, warnings
 import lib, pipes
 
 warnings.filterwarnings("ignore")
 
-N = {"quick": 90, "thorough": 400}
-TEXTS_PER_CASE = {"quick": 3, "thorough": 5}
+N = {"quick": 70, "thorough": 400}
+TEXTS_PER_CASE = {"quick": 2, "thorough": 5}
 ID_RE = re.compile(r"\b(extend|project|select_rows|order_rows|map_columns|rename|natural_join|join_source_left|join_source_right|"
                    r"concat_rows|table_reference|convert_records_blocks_in|convert_records_blocks_out)_(\d+)\b")
 
@@ -662,6 +662,12 @@ def plain_key(dialect):
     return (dialect, False, (False, False, False, False))
 
 
+def defines_column_order(case):
+    """the order of the result's columns is defined by the pipeline only when it ends in select_columns (DESIGN 3.2); otherwise
+    columns are compared by name (an overwriting extend is written after the columns it keeps, merged or not)"""
+    return case.script["op"] == "select_columns"
+
+
 def base_key(dialect, res):
     """the variant every other variant of the dialect is compared with: the one closest to the library's defaults that runs
     (WITH form, no CTE elimination, extend merges on, no annotation, trailing commas)"""
@@ -688,7 +694,7 @@ def oracle(case, res=None):
             if r[0] != "ok":
                 fails.append({"dialect": dialect, "merges": key[1], "options": o, "kind": r[0], "why": r[2], "sql": r[1]})
                 continue
-            why = pipes.frames_equiv(base[2], r[2], check_col_order=True, check_row_order=ordered)
+            why = pipes.frames_equiv(base[2], r[2], check_col_order=defines_column_order(case), check_row_order=ordered)
             if why:
                 fails.append({"dialect": dialect, "merges": key[1], "options": o, "kind": "different-table", "why": why, "sql": r[1]})
     return fails
@@ -709,7 +715,7 @@ def classify(case, f, res):
 
     def agrees(r):
         base = res[base_key(f["dialect"], res)]
-        return r is not None and r[0] == "ok" and pipes.frames_equiv(base[2], r[2], check_col_order=True, check_row_order=final_total_order(case, base[2])) is None
+        return r is not None and r[0] == "ok" and pipes.frames_equiv(base[2], r[2], check_col_order=defines_column_order(case), check_row_order=final_total_order(case, base[2])) is None
     if f["kind"] == "gen-error":
         if f["merges"] and "KeyError" in f["why"] and agrees(variant(merges=False)):
             sig["cause"] = "merge_test_keyerror_after_narrowing"
@@ -878,6 +884,8 @@ def corr_terms(case, flags, rng, ntexts, stats):
                 stats["with_steps_%d" % min(len(prev), 6)] = stats.get("with_steps_%d" % min(len(prev), 6), 0) + 1
                 if use_cache and len(ocache) < len([1 for _ in cont_nodes(t2)]):
                     stats["cte_reused"] = stats.get("cte_reused", 0) + 1
+                    has_join = '"k": "binary"' in json.dumps(t2) and "JOIN" in json.dumps(t2)
+                    SOUND_TERMS.append(("(CSound %s %s)" % (fl, cnear(t2)), {"dialect": dialect, "merges": merges, "has_join": has_join}))
         # merge: off-tree through the model == on-tree
         off, on = trees.get((dialect, False)), trees.get((dialect, True))
         if off and off[0] == "ok" and on:
@@ -934,6 +942,9 @@ def joint_intern(case, dialect, on_raises=False):
     return erase_ids(t_off), erase_ids(t_on)
 
 
+SOUND_TERMS = []          # (term, info): real graphs on which CTE elimination reused a step; filled by corr_terms
+
+
 PREAMBLE = ("From Coq Require Import List String Bool.\nImport ListNotations.\n"
             "From DA Require Import Base.PyRT Base.Cases Model.NearSql Model.WithForm Model.SqlMerge Model.Render Model.NearSqlCases.\n"
             "Local Open Scope string_scope.\n")
@@ -953,7 +964,9 @@ def run(chk):
         "harness/props/C04.py (serialiser of the NearSQL object graph, interning of ops_key strings, erasure of name counters for the merge comparison), harness/pipes.py"]
     chk.assumptions = [
         "theorems guard: `hygienic` (every generated step has its own name, different from every table name; no empty terms dict) -- checked on every real graph",
-        "cte_elim theorem guard: `cache_sound` (equal cache keys => same table, same key set below, key not repeated below); REFUTED for the keys the code builds (two listed findings)",
+        "cte_elim theorem guard: `cache_sound` (equal cache keys => same table, same key set below, key not repeated below), or its decidable sufficient form "
+        "cache_sound_dec, which is evaluated in Coq on every real graph with reuse (evidence: cache_sound_decided); it was REFUTED for the keys of the code as found "
+        "(repaired in /repo by efc7e6f and 0184359)",
         "merge theorem guards: declared dependencies describe each expression; the sub-query is asked for the columns the extend passes through or reads",
         "code flags (which of the three proposed repairs are present) are read off the code's behaviour on three fixed tiny inputs at run time",
         "column and table names in generated pipelines are plain identifiers (py_list_repr models repr() for those)",
@@ -980,6 +993,7 @@ def run(chk):
             cases.append(c)
     terms, meta, stats = [], [], {}
     ntok = 0
+    del SOUND_TERMS[:]
     shrink_budget = [4]
     t_start = time.time()
     for c in cases:
@@ -1031,6 +1045,18 @@ def run(chk):
         for i in failing[:4]:
             m = meta[i]
             chk.corr_break(f"model and implementation disagree ({m['kind']}, {m.get('dialect')}, merges={m.get('merges')})", {k: v for k, v in m.items()})
+        # the guard of the CTE elimination theorem, decided (Model/CacheSound.v) on the real graphs where a step was reused
+        if SOUND_TERMS:
+            nf, nerr, nck = lib.run_case_files("C04s", PREAMBLE, [t for t, _ in SOUND_TERMS], "check_cases", per_file=150)
+            no = [SOUND_TERMS[i][1] for i in nf if i < len(SOUND_TERMS)]
+            chk.cov["cache_sound_decided"] = {"graphs_with_reuse": len(SOUND_TERMS), "checked_in_coq": nck, "established_for_every_engine": nck - len(nf),
+                                              "not_established": len(nf), "not_established_with_a_join_in_the_graph": sum(1 for x in no if x["has_join"]),
+                                              "errors": nerr[:1]}
+            for x in no:
+                if not x["has_join"]:
+                    chk.corr_break("two sub-queries of a real NearSQL graph have the same cache key and are not the same query up to step names "
+                                   "(no join involved): the guard of C04_cte_elim_preserves is not established for a graph the generator produced", x)
+                    break
         chk.cov["timing_s"] = {"generation_oracle_serialisation": round(t_oracle, 1), "coq_case_files": round(time.time() - t_start - t_oracle, 1)}
         if (failing or errors or not getattr(chk, "proof_ok", True)) and not any(v[2] for v in chk.violations):
             # something no longer checks and the sampled pipelines all behave: look further for an input on which the
